@@ -42,6 +42,26 @@ def recordsOk (allowLong : Bool) (inputIds : List (List Char)) (outs : List Out)
   && outs.all (fun o => shortEnough allowLong o.id && shortEnough allowLong o.name)
   && remembersAll inputIds outs
 
+/-- `generate_unique_id`, whenever it returns: the id is not one of the existing ids and, when a
+    positive `max_length` was given, not longer than it -/
+def uniqueOk (taken : List (List Char)) (maxLength : Int) (name : List Char) : Bool :=
+  !taken.contains name && (decide (maxLength ≤ 0) || decide ((name.length : Int) ≤ maxLength))
+
+/-- Python falsiness of an optional string -/
+def falsy : Option (List Char) → Bool
+  | none => true
+  | some s => s.isEmpty
+
+/-- one `fix_record_name_id` call on a record (old id, old original_id) with id set `taken`,
+    giving record `o` and set `taken'`: clean, short, the new id is the old one or was free, the
+    set only grows and holds the new id (when it held the old one), original_id as documented -/
+def fixOk (allowLong : Bool) (taken : List (List Char)) (oldId : List Char) (oldOrig : Option (List Char))
+    (o : Out) (taken' : List (List Char)) : Bool :=
+  fileSafe o.id && fileSafe o.name && shortEnough allowLong o.id && shortEnough allowLong o.name
+  && (o.id == oldId || !taken.contains o.id)
+  && taken.all (fun y => taken'.contains y) && (!taken.contains oldId || taken'.contains o.id)
+  && o.orig == (if falsy oldOrig && o.id != oldId then some oldId else oldOrig)
+
 /-- gene identifiers contain no character that breaks external programs -/
 def geneSafe (s : List Char) : Bool := illegalGeneChars.all fun bad => !s.contains bad
 
